@@ -98,3 +98,37 @@ Theorem C13_each_call_served_by_its_own_response : forall reg d cs1 pc cs2,
   nth_error (submit_all reg d (cs1 ++ pc :: cs2)) (length cs1) = Some (submit_response reg d (fst pc) (snd pc)).
 Proof. exact submit_all_pointwise. Qed.
 Print Assumptions C13_each_call_served_by_its_own_response.
+
+(* ---- the CONTEXT the call runs under (its values, its deadline, its cancellation) ---- *)
+
+(* what Submit does satisfies the predicate the correspondence run evaluates on the implementation: with an operation
+   context the call runs under it alone; else under the runtime context; else under neither *)
+Theorem C13_right_context_carries : forall op rt timeout action,
+  right_context op rt timeout action (submit_context op rt timeout action) = true.
+Proof. exact right_context_submit. Qed.
+Print Assumptions C13_right_context_carries.
+
+(* and the predicate accepts no other behaviour *)
+Theorem C13_right_context_exact : forall op rt timeout action s,
+  right_context op rt timeout action s = true -> s = submit_context op rt timeout action.
+Proof. exact right_context_unique. Qed.
+Print Assumptions C13_right_context_exact.
+
+(* the runtime context plays no part once the operation has a context: whatever its deadline or state *)
+Theorem C13_operation_context_alone : forall c rt rt' timeout action,
+  submit_context (Some c) rt timeout action = submit_context (Some c) rt' timeout action.
+Proof. exact op_context_alone. Qed.
+Print Assumptions C13_operation_context_alone.
+
+(* a call run under the runtime context instead is rejected, whatever the two contexts are *)
+Theorem C13_runtime_context_instead_is_rejected : forall c rt c' timeout action,
+  right_context (Some c) rt timeout action (run_under FromTransport c' timeout action) = false.
+Proof. exact other_context_rejected. Qed.
+Print Assumptions C13_runtime_context_instead_is_rejected.
+
+(* cancelling the operation context during the call ends the call; cancelling the runtime context does not *)
+Theorem C13_operation_cancellation_ends_the_call : forall c rt timeout,
+  n_ended (submit_context (Some c) rt timeout 1) = true /\
+  n_ended (submit_context (Some c) rt timeout 2) = x_cancelled c.
+Proof. exact op_cancel_ends_call. Qed.
+Print Assumptions C13_operation_cancellation_ends_the_call.
